@@ -141,10 +141,36 @@ def gen_projects(run):
         refs = [(rng.choice(PK), rng.choice([x for x in PK if x != "Main"]), rng.randrange(len(REF_KINDS))) for _ in range(rng.randint(0, 2))]
         refs = [(a, b, k) for a, b, k in refs if a != b]
         ps.append({"imports": imports, "impls": impls, "refs": refs})
+    # package names must be compared whole: every second project is written with names that extend one another
+    # (Ma < Main < MainOther < MainTraits keeps the order of Data < Main < Other < Traits the model relies on)
+    ps = ps[:n_sys] + [dict(p_, rename=RENAME) for p_ in ps[:n_sys]] + ps[n_sys:] + [dict(p_, rename=RENAME) for p_ in ps[n_sys:]]
+    n_sys *= 2
     return ps, n_sys
 
 
+RENAME = {"Data": "Ma", "Other": "MainOther", "Traits": "MainTraits"}
+
+
 def write_project(root, p):
+    write_project0(root, p)
+    ren = p.get("rename")
+    if not ren:
+        return
+    import re
+    pat = re.compile(r"\b(%s)\b" % "|".join(ren))
+    for d_ in sorted(os.listdir(root)):
+        full = os.path.join(root, d_)
+        for dp, _, fn in os.walk(full) if os.path.isdir(full) else [(root, [], [d_])]:
+            for x in fn:
+                fp = os.path.join(dp, x)
+                t = open(fp).read()
+                with open(fp, "w") as f:
+                    f.write(pat.sub(lambda m: ren[m.group(1)], t))
+        if os.path.isdir(full) and d_ in ren:
+            os.rename(full, os.path.join(root, ren[d_]))
+
+
+def write_project0(root, p):
     shutil.rmtree(root, ignore_errors=True)
     os.makedirs(root)
     for pkg in PK:
